@@ -82,6 +82,10 @@ def iter_view(interp, v, node=None):
         return v.fields["__view__"]
     if isinstance(v, VObj) and "__list__" in v.fields:
         return iter_view(interp, v.fields["__list__"], node)
+    from .extract import ClassInfo as _CI
+    if isinstance(v, VObj) and isinstance(v.cls, _CI) and isinstance(v.cls.find_method("__iter__")[1], list):
+        from .lib import _dunder
+        return iter_view(interp, interp.need(_dunder(interp, v, "__iter__", [], node)), node)
     raise Unsupported(f"iteration over {v!r} (line {getattr(node, 'lineno', '?')})")
 
 
